@@ -14,6 +14,13 @@ transitive closure (oracles/digraph.py).  Contract, from the property statement:
                                  adjacency has an edge A -> B (A != B) exactly when some edge u -> w has u in A, w in B;
                                  all adjacency entries are condensed nodes; the condensed graph is acyclic.
   *_edges(n, edges, backend="python")  the same contracts on V = 0..n-1 with the given edge list.
+
+Round 2 (checks/C14_round2.py, oracles/digraph_big.py): a size ladder far beyond the small scope (10 .. 50000 nodes: long
+cycles / paths / lassos with DFS depth = n, planted SCC structure, deep and layered DAGs, G(n, c/n), dense tournaments)
+judged by linear certificates against an independent iterative Kosaraju (every edge forward in the order; same component
+iff same class; no edge from an earlier to a later component; condensed edge set), and a history mode (one node list /
+adjacency dict / neighbour function / edge list object edited in place between calls, every call twice, last answers
+recomputed in a fresh process).
 """
 from __future__ import annotations
 
@@ -24,6 +31,7 @@ from collections import Counter
 from vf.core import Ctx, use_repo
 from vf.pool import pmap
 from oracles import digraph as D
+from checks import C14_round2 as R2
 
 LEVEL = "exploration"
 SCHEMES = ("int", "intneg", "str", "tuple", "mixed", "frozenset")
@@ -632,7 +640,8 @@ def work_R(args):
     return acc.data()
 
 
-WORKERS = {"S1": work_S1, "S2": work_S2, "S3": work_S3, "S4": work_S4, "R": work_R}
+WORKERS = {"S1": work_S1, "S2": work_S2, "S3": work_S3, "S4": work_S4, "R": work_R, "L": R2.work_ladder,
+           "H": R2.work_history}
 
 
 def work(args):
@@ -686,6 +695,17 @@ def run(ctx: Ctx):
                            "all": "plus duplicates, 1..2 outside neighbours (lenient or strict neighbour function), shuffled "
                                   "node and neighbour order, label scheme int/negative int/str/tuple/frozenset/mixed, nodes "
                                   "as list/tuple/iterator/generator/dict keys, neighbours as list/tuple/iterator/generator"})
+    # round 2: size ladder (linear certificates) and history mode (checks/C14_round2.py)
+    ctx.notes["oracle_self_test_graphs_big"] = R2.DB.self_test()
+    lspecs = R2.ladder_specs(q, seed)
+    lspecs.sort(key=lambda sp: -(sp["size"] ** 2 if sp["family"] in ("complete", "tournament") else sp["size"]))
+    nbig = sum(1 for sp in lspecs if sp["size"] >= 2000)
+    lchunks = [("L", [sp]) for sp in lspecs[:nbig]] + [("L", lspecs[i:i + 8]) for i in range(nbig, len(lspecs), 8)]
+    hspecs = R2.history_specs(q, seed)
+    hdeep = [("H", [h]) for h in hspecs if h["size"] != "small"]
+    hsmall = [h for h in hspecs if h["size"] == "small"]
+    hchunks = [("H", hsmall[i:i + 50]) for i in range(0, len(hsmall), 50)]
+    items = lchunks[:nbig] + hdeep + items + lchunks[nbig:] + hchunks
     results = pmap(work, items, chunksize=1)
     tot = Counter()
     keys = set()
@@ -693,17 +713,66 @@ def run(ctx: Ctx):
     viol = []
     samples = []
     sampled = set()
+    r2 = Counter()
+    lasts = []
     for it, r in zip(items, results):
         for k in ("evals", "cases", "nontrivial", "with_out", "with_dup", "cyclic"):
             tot[k] += r[k]
         keys |= r["keys"]
         per_obl.update(r["per_obl"])
         viol += r["viol"]
-        kind = (it[0], it[1])
+        for k, v in r.get("r2", {}).items():
+            if k.startswith("ladder_max"):
+                r2[k] = max(r2[k], v)
+            else:
+                r2[k] += v
+        lasts += r.get("lasts", [])
+        kind = (it[0], it[1] if it[0] not in ("L", "H") else None)
         if kind not in sampled and r["samples"]:
             sampled.add(kind)
             samples.append(r["samples"][0])
-    viol.sort(key=lambda v: (v[0], len(str(v[1]))))
+    # history mode: the last answers of a sample of sessions, recomputed in a fresh interpreter on newly built arguments
+    import json as _json
+    try:
+        fresh = R2.fresh_process([l for _h, l in lasts])
+        for (hs, last), ans in zip(lasts, fresh):
+            r2["history_fresh_process_comparisons"] += 1
+            here = _json.loads(_json.dumps(last["answers"]))
+            for fn in here:
+                if here[fn] != ans.get(fn):
+                    name = f"C14/{FULL[fn]}/ensures:same-answer-in-a-fresh-process"
+                    per_obl[name] += 1
+                    viol.append((name, {"fn": fn, "api": "history", "history": hs, "upto": None, "fresh": True},
+                                 f"[history, last round] in this process (after the earlier calls and in-place edits) "
+                                 f"{R2.short(here[fn], 300)}, in a fresh process on an equal graph {R2.short(ans.get(fn), 300)}"))
+    except Exception as e:  # noqa: BLE001
+        ctx.defects.append(f"C14 history: fresh-process comparison failed: {e}")
+    fam_count = Counter(sp["family"] for sp in lspecs)
+    ctx.scope("round 2 size ladder (linear certificates against an independent iterative Kosaraju, cross-checked with "
+              "planted classes / Boolean closure <= 700 nodes / sampled forward-backward reachability; oracles/digraph_big.py)",
+              graphs=dict(fam_count), max_nodes=r2["ladder_max_nodes"], max_edges=r2["ladder_max_edges"],
+              planted_classes_known=r2["ladder_planted_classes"],
+              sizes="10,11,12,33,65,129,140,260,520,599..602,650,700,1000,1030,2049,4100,8200" + ("" if q else ",20000,50000"),
+              description={"cycle/path/lasso/bipath/two_cycles/cycle_chain": "DFS depth = number of nodes",
+                           "planted": "blocks (Hamiltonian cycle + chords) in a hidden order, forward edges, duplicates, "
+                                      "self loops, outside neighbours; mixed / all-singleton / few big blocks",
+                           "dag_deep": "hidden Hamiltonian path + 2n forward chords, with or without one back edge / self loop",
+                           "dag_layers": "sqrt(n)-wide layers, parallel edges", "gnp": "n*c random edges, c in 0.8,1.2,2,4",
+                           "complete/tournament": "10..140 (thorough 260) nodes, up to 19460 (thorough 67340) edges; transitive or random",
+                           "tree/hub": "binary out-/in-tree; hub with 2-cycles, sources and sinks",
+                           "presentations": "per graph: as generated; reversed or shuffled node+neighbour order; relabelled "
+                                            "(negative int/str/tuple/frozenset/mixed) or one-shot iterables; strict "
+                                            "neighbour function when there are outside neighbours; *_edges on the edge list"})
+    ctx.scope("round 2 history mode: one node list, adjacency dict, neighbour function and edge list object; in-place edits "
+              "between rounds; all five functions called twice per round and judged against the oracle for the graph as it "
+              "is then", sessions=r2["history_sessions"], calls=r2["history_calls"],
+              fresh_process_comparisons=r2["history_fresh_process_comparisons"],
+              description={"small": "1..8(+) nodes, 3..6 rounds: add/insert/pop/clear/reverse neighbours, new node, node "
+                                    "dropped from the node set (its in-edges become outside neighbours), node list rotated",
+                           "deep": "path of 580..990 nodes extended in place across 600 / 1000 nodes, closed to a cycle, "
+                                   "opened again"})
+    ctx.notes["round2"] = dict(r2)
+    viol.sort(key=lambda v: (v[0], v[1].get("n", 0), len(str(v[1]))))  # smallest graph first
     kept = Counter()
     for name, case, detail in viol:
         kept[name] += 1
@@ -724,16 +793,23 @@ def run(ctx: Ctx):
                 "by hash. Non-trivial = at least one edge between two different nodes of the node set. evaluations = "
                 "checked calls: strongly_connected_components, topological_sort, condense per case, plus the two *_edges "
                 "functions (backend=python) when the case has no outside neighbour. By relabelling symmetry the identity "
-                "node order over all labelled digraphs covers every node order of every digraph.")
+                "node order over all labelled digraphs covers every node order of every digraph. Round 2: one case per "
+                "(ladder spec, presentation variant), graph regenerated from the spec, counted when non-trivial; one per "
+                "history session; distinct by construction; every call of a session is an evaluation.")
     ctx.assumptions += [
         "the graph of a case is the one induced on the node set: neighbours outside the node set are not nodes and "
         "contribute no edges (the reading topological_sort itself uses)",
         "node iterables list every node once (duplicate entries in `nodes` are not generated)",
         "*_edges variants are exercised only with endpoints in 0..n-1 and backend='python'",
-        "no graph deep enough to hit the recursion limit (<= 14 nodes)",
+        "the interpreter recursion limit is raised to (number of nodes + 1000) around every call on a ladder / history "
+        "graph, as the module docstring of solvor.scc advises for long paths (Tarjan is recursive); the small scope runs "
+        "at the default limit",
     ]
     ctx.trusted += ["oracles/digraph.py: Warshall closure on bit masks, self-tested against the plain Boolean-matrix "
                     "closure on all digraphs with <= 3 nodes and 300 seeded larger ones at every run",
+                    "oracles/digraph_big.py: iterative two-pass Kosaraju, self-tested against that closure at every run and "
+                    "cross-checked per ladder graph (planted classes, closure <= 700 nodes, forward/backward reachability "
+                    "of sampled nodes)",
                     "CPython itertools/random"]
 
 
@@ -741,6 +817,8 @@ def replay(rec) -> int:
     use_repo()
     case = rec["case"]
     fn = case["fn"]
+    if case["api"] == "history" or "ladder" in case or case["n"] > 60:
+        return R2.replay(rec)
     if case["api"] == "edges":
         adj = [[] for _ in range(case["n"])]
         for u, v in case["edges"]:
